@@ -652,3 +652,85 @@ Example peer_address_witness_trace :
 Proof.
   split; [reflexivity|]. intro H. specialize (H [66;66;66;66] eq_refl eq_refl). discriminate H.
 Qed.
+
+(* ---------- known_hosts MARKER lines: never a trust entry ---------- *)
+Lemma lookup_lines_in : forall rd first ls k,
+  lookup_lines rd first ls = Some k ->
+  exists l, In l ls /\ selected rd l = true /\ l_hit l = true /\ l_key l = k.
+Proof.
+  intros rd first ls k H. unfold lookup_lines in H.
+  assert (exists l, In l (hits rd ls) /\ l_key l = k) as [l [Hin Hk]].
+  { destruct first.
+    - destruct (hits rd ls) as [|l r]; [discriminate|]. inversion H. exists l. split; [left; reflexivity|reflexivity].
+    - destruct (rev (hits rd ls)) as [|l r] eqn:E; [discriminate|]. inversion H. exists l.
+      split; [|reflexivity]. apply in_rev. rewrite E. left. reflexivity. }
+  unfold hits in Hin. apply filter_In in Hin. destruct Hin as [Hin Hs].
+  apply andb_true_iff in Hs. destruct Hs as [Hs Hh]. exists l. repeat split; assumption.
+Qed.
+
+(* a reader that does not strip markers never returns a key that only marker lines (or lines of other hosts)
+   carry: the lookup result is missing or another key *)
+Theorem marker_lines_never_the_entry : forall rd first ls sk,
+  r_marker_blind rd = false -> plain_entry_has ls sk = false ->
+  lookup_lines rd first ls = None \/ exists k, lookup_lines rd first ls = Some k /\ k <> sk.
+Proof.
+  intros rd first ls sk Hb Hp. destruct (lookup_lines rd first ls) as [k|] eqn:E; [|left; reflexivity].
+  right. exists k. split; [reflexivity|]. intro Hk. subst k.
+  destruct (lookup_lines_in _ _ _ _ E) as [l [Hin [Hs [Hh Hk]]]].
+  unfold selected in Hs. rewrite Hb in Hs. cbn [orb] in Hs. apply andb_true_iff in Hs. destruct Hs as [Hm _].
+  assert (plain_entry_has ls sk = true) as C.
+  { unfold plain_entry_has. apply existsb_exists. exists l. split; [exact Hin|].
+    rewrite Hm, Hh, Hk, hk_beq_refl. reflexivity. }
+  rewrite C in Hp. discriminate.
+Qed.
+
+(* hence: strict mode, the presented key is on no NON-marker line for the host (revoked for it, a certificate
+   authority for it, listed for other hosts only, or nowhere) => nothing is offered *)
+Theorem marker_protects_credentials : forall rd first ls l s,
+  r_marker_blind rd = false -> strict s = true -> entry s = lookup_lines rd first ls ->
+  plain_entry_has ls (skey s) = false -> (l = Asyncssh -> agrees s) ->
+  no_offer (open_trace true l s) = true /\
+  (handshake_ok s = true -> ends_with AuthenticationFailed (open_trace true l s) = true).
+Proof.
+  intros rd first ls l s Hb Hs He Hp Ha. apply no_offer_before_verify; [exact Hs| |exact Ha].
+  apply key_bad_spec. rewrite He. apply marker_lines_never_the_entry; assumption.
+Qed.
+
+(* the statement for a reader [rd] (paramiko; no library matcher involved) *)
+Definition marker_full (rd : reader) : Prop :=
+  forall first ls s, strict s = true -> entry s = lookup_lines rd first ls ->
+    plain_entry_has ls (skey s) = false -> no_offer (open_trace true Paramiko s) = true.
+
+Theorem marker_full_as_written : marker_full reader_as_written /\ marker_full (mkR false true).
+Proof.
+  split; intros first ls s Hs He Hp.
+  - apply (marker_protects_credentials reader_as_written first ls Paramiko s eq_refl Hs He Hp); intro H; discriminate H.
+  - apply (marker_protects_credentials (mkR false true) first ls Paramiko s eq_refl Hs He Hp); intro H; discriminate H.
+Qed.
+
+(* refuted for a reader that strips the marker and files the rest as an entry: "@revoked host K", the server
+   presents K, the password goes out *)
+Definition revoked_witness_lines : list khline := [mkL MRevoked false true [75;75;75;75]].
+Definition revoked_witness (rd : reader) : scen :=
+  mkS true (lookup_lines rd false revoked_witness_lines) [75;75;75;75] Untrusted true false true true false true false.
+
+Theorem marker_blind_refuted : ~ marker_full (mkR true false) /\ ~ marker_full (mkR true true).
+Proof.
+  split; intro H.
+  - specialize (H false revoked_witness_lines (revoked_witness (mkR true false)) eq_refl eq_refl eq_refl). discriminate H.
+  - specialize (H false revoked_witness_lines (revoked_witness (mkR true true)) eq_refl eq_refl eq_refl). discriminate H.
+Qed.
+
+(* the premises are satisfiable by non-trivial files: key rotation (new key trusted, old key revoked), the server
+   presents the OLD key / the NEW key *)
+Example rotation_old_key :
+  let ls := [mkL MPlain false true [78;78]; mkL MRevoked false true [79;79]; mkL MCertAuthority true true [79;79];
+             mkL MPlain false false [79;79]] in
+  plain_entry_has ls [79;79] = false /\ lookup_lines reader_as_written false ls = Some [78;78] /\
+  lookup_lines (mkR true false) false ls = Some [79;79] /\ lookup_lines (mkR true true) false ls = Some [79;79] /\
+  plain_entry_has ls [78;78] = true /\
+  open_trace true Paramiko (mkS true (lookup_lines reader_as_written false ls) [79;79] Untrusted true false true true false true false)
+    = [KeyExchange; CheckPresent; CheckValue; Fail AuthenticationFailed] /\
+  open_trace true Paramiko (mkS true (lookup_lines (mkR true false) false ls) [79;79] Untrusted true false true true false true false)
+    = [KeyExchange; CheckPresent; CheckValue; Offer Password; Opened].
+Proof. cbv zeta. repeat split. Qed.
